@@ -73,8 +73,12 @@ Definition wcase_model_ok (cfg : deviations) (c : wcase) : bool :=
 Definition wcase_spec_ok (c : wcase) : bool :=
   let '(x, t) := spec_run (wc_args c) (truth_after (wc_init c) (wc_pre c)) (wc_hist c) in
   let o := wc_obs c in
-  outcome_matches o x t (Some (0, 0, 0, 0)) && o_dict_ok o && N.eqb (o_late o) 0 && o_other_ok o
-  && match x with XPending => true | _ => leak_eqb (o_leak_end o) (0, 0, 0, 0) end.
+  (outcome_matches o x t (Some (0, 0, 0, 0))
+   (* calibration: when a condition does not parse AND the check at the call would already end the wait (return or raise),
+      the property does not say which of the two comes first; the SyntaxError at the call is accepted as well *)
+   || (a_badexpr (wc_args c) && outcome_matches o (XExc ESyntax) 0 (Some (0, 0, 0, 0))))
+  && o_dict_ok o && N.eqb (o_late o) 0 && o_other_ok o
+  && match o_exit o with XPending => true | _ => leak_eqb (o_leak_end o) (0, 0, 0, 0) end.
 
 (* ---------- attribution of a Spec failure to deviation switches ---------- *)
 Definition result_eqb (a b : result) : bool :=
